@@ -471,11 +471,6 @@ func (s *setup) judgeOp(res *core.Result, w *env.World, in judgeIn, detail func(
 		if ei == 1 && len(hs) > 0 && pi >= len(t.hookPosts) && in.r.Err != nil {
 			// the op failed between the events for a reason that is not a hook failure
 			res.Stat("ops_failed_between_events(trivial)", 1)
-			es := in.r.ErrString()
-			if len(es) > 70 {
-				es = es[:70]
-			}
-			res.Stat("DBG between:"+op.Kind+":"+es, 1)
 			break
 		}
 		// deletion window of this event ends where the next phase starts
